@@ -248,12 +248,12 @@ class _SSeq(SV):
 
     def __add__(self, o):
         if isinstance(o, (type(self), self._py)):
-            return type(self)(z3.Concat(self.t, type(self).of(o).t))
+            return type(self)(_concat(self.t, type(self).of(o).t))
         return NotImplemented
 
     def __radd__(self, o):
         if isinstance(o, self._py):
-            return type(self)(z3.Concat(type(self).of(o).t, self.t))
+            return type(self)(_concat(type(self).of(o).t, self.t))
         return NotImplemented
 
     def __eq__(self, o):
@@ -297,18 +297,76 @@ class _SSeq(SV):
         return SBool(type(self).of(o).t <= self.t)
 
 
+_PROVER = [None]      # set by the engine: callable(z3 Bool) -> True when the path condition implies it
+
+
+def _prove(cond):
+    c = z3.simplify(cond)
+    if z3.is_true(c):
+        return True
+    if z3.is_false(c):
+        return False
+    p = _PROVER[0]
+    return bool(p and p(c))
+
+
+def _is_extract(t):
+    return z3.is_app(t) and t.decl().kind() == z3.Z3_OP_SEQ_EXTRACT
+
+
+def _is_empty_lit(t):
+    return z3.is_string_value(t) and t.as_string() == ''
+
+
 def _substr(t, lo, n):
-    """str.substr with nested extractions flattened:
-    substr(substr(s,a,n0),b,m) = ite(a>=0 and b>=0, substr(s, a+b, min(m, n0-b)), "")  (exact under SMT-LIB semantics)."""
-    if z3.is_app(t) and t.decl().kind() == z3.Z3_OP_SEQ_EXTRACT:
+    """str.substr; nested extractions are flattened with the exact identity (SMT-LIB semantics)
+        substr(substr(s,a,n0),b,m) = ite(a>=0 and b>=0, substr(s, a+b, min(m, n0-b)), "")
+    and the guard is dropped when the current path condition proves it."""
+    if z3.is_app(t) and t.decl().kind() == z3.Z3_OP_ITE:
+        c, x, y = t.children()
+        return z3.If(c, _substr(x, lo, n), _substr(y, lo, n))
+    if _is_extract(t):
         base, a, n0 = t.children()
-        m = z3.If(n <= n0 - lo, n, n0 - lo)
+        rest = z3.simplify(n0 - lo)
+        if _prove(n <= rest):
+            m = n
+        elif _prove(n >= rest):
+            m = rest
+        else:
+            m = z3.If(n <= rest, n, rest)
         inner = _substr(base, z3.simplify(a + lo), z3.simplify(m))
-        cond = z3.simplify(z3.And(a >= 0, lo >= 0))
-        if z3.is_true(cond):
+        cond = z3.And(a >= 0, lo >= 0)
+        if _prove(cond):
             return inner
-        return z3.If(cond, inner, z3.StringVal(''))
-    return z3.SubString(t, lo, n)
+        return z3.If(z3.simplify(cond), inner, z3.StringVal(''))
+    if z3.is_app(t) and t.decl().kind() == z3.Z3_OP_SEQ_CONCAT and len(t.children()) == 2:
+        x, y = t.children()
+        lx = z3.Length(x)
+        if _prove(z3.And(lo >= 0, lo + n <= lx)):
+            return _substr(x, lo, n)
+        if _prove(lo >= lx):
+            return _substr(y, z3.simplify(lo - lx), n)
+    return z3.SubString(t, z3.simplify(lo), z3.simplify(n))
+
+
+def _concat(a, b):
+    """Concatenation; adjacent extractions of the same string are merged when the path condition proves
+    the side conditions:  substr(s,a1,n1) ++ substr(s,a1+n1,n2) = substr(s,a1,n1+n2)
+    if 0<=a1, 0<=n1, 0<=n2, a1+n1<=len(s)."""
+    if _is_empty_lit(a):
+        return b
+    if _is_empty_lit(b):
+        return a
+    if _is_extract(a) and _is_extract(b):
+        s1, a1, n1 = a.children()
+        s2, a2, n2 = b.children()
+        if s1.eq(s2) and _prove(a2 == a1 + n1) and _prove(z3.And(a1 >= 0, n1 >= 0, n2 >= 0, a1 + n1 <= z3.Length(s1))):
+            return z3.SubString(s1, a1, z3.simplify(n1 + n2))
+    if _is_extract(b):
+        # whole-string prefix followed by the adjacent extraction:  s ++ ... never matches; but
+        # substr(s,0,len(s)) is normalised to s by z3's simplifier, handle  x ++ substr(...) only above.
+        pass
+    return z3.Concat(a, b)
 
 
 class SStr(_SSeq):
